@@ -344,6 +344,12 @@ def run():
     ck.tables["threeway_coverage"] = cover.coverage(rows, FACTORS, 3)
     tasks = [("tvf.checks.c12:case", dict(cfg=dict(to_cfg(r, ck.subseed("cfg", i)), reopen=(i % 2 == 0), rerun=(i % 3 == 1), ragged=(i % 3 == 2),
                                                  pin_limit=([None, 1 - 5e-5, None, 1 - 9e-5][i % 4])), trims=trims), None) for i, r in enumerate(rows)]
+    # the shortest documented use, every option and run() argument at its default (n_particles = 2 n_dim, n_total = 4096, progress display
+    # on, clustering on); first in the list because it is the longest run
+    for j in range(ck.pick(1, 3)):
+        dcfg = dict(target=["gauss12", "gauss10", "gauss14"][j], tkw=dict(rho=0.3, half=6.0), kernel="tpcn", resample="mult", clustering=True, mode="scalar",
+                    N=[24, 20, 28][j], n_total=4096, seed=ck.subseed("defaults", j), all_defaults=True)
+        tasks.insert(0, ("tvf.checks.c12:case", dict(cfg=dcfg, trims=trims[:2]), None))
     for i, st, val in farm.run(tasks, timeout=900, progress="C12"):
         cfg = tasks[i][1]["cfg"]
         if st == "timeout":
@@ -354,6 +360,7 @@ def run():
             continue
         ck.case(dict(cfg=cfg), nontrivial=val["combos"] > 0)
         ck.event("completed runs with postconditions checked")
+        ck.event("runs with every constructor option and run() argument at its default", int(bool(cfg.get("all_defaults"))))
         ck.event("runs whose log-likelihood carries a constant of 720 ... 1e5 in absolute value", int(bool(cfg.get("shift"))))
         ck.event("posterior() option combinations called", val["combos"])
         ck.event("finished runs re-opened from their final checkpoint", val.get("reopened", 0))
